@@ -38,7 +38,7 @@ func errorValuesOf(c ssa.CallInstruction) []ssa.Value {
 }
 
 func runC18(e *Engine, r *Report, tier string) {
-	r.Explanation = "C18, structural clauses. Sites are found, not listed: every CacheContext() call in fx-core consensus code whose write-back function is used, and every IBC OnRecvPacket implementer. Decided per site: R1a every state effect between the creation of the cached context and the write-back that can still reach the write-back uses the cached context (none bypasses it through the outer context); R1b the write-back is control dependent on `err == nil` where err collects the error of every effectful call made on the cached context (no sub-step error is ignored, no unconditional or error-path write-back); R1c no effect is performed on the cached context on the failure branch (its writes would be dropped, the designated outcome must be written with the outer context); R1d any recover() in consensus code turns the panic into the enclosing function's error result; R2 in the IBC middleware a keeper error after the inner module succeeded yields an error acknowledgement. R4 a value-moving sub-step whose error is tolerated runs on a cached context, everywhere else its error is propagated (decided as C04.R8 for the IBC middleware and the claim handlers). R5 what a failed inbound bridge call had credited is taken back from the very account that was credited before the refund is queued (the credited == debited obligations of C04.R4). Not decided: failures inside the EVM at every gas limit (covered only via error propagation), the exact content of the designated outcome."
+	r.Explanation = "C18, structural clauses. Sites are found, not listed: every CacheContext() call in fx-core consensus code whose write-back function is used, and every IBC OnRecvPacket implementer. Decided per site: R1a every state effect between the creation of the cached context and the write-back that can still reach the write-back uses the cached context (none bypasses it through the outer context); R1b the write-back is control dependent on `err == nil` where err collects the error of every effectful call made on the cached context (no sub-step error is ignored, no unconditional or error-path write-back); R1c no effect is performed on the cached context on the failure branch (its writes would be dropped, the designated outcome must be written with the outer context); R1d any recover() in consensus code turns the panic into the enclosing function's error result; R2 in the IBC middleware a keeper error after the inner module succeeded yields an error acknowledgement. R4 a value-moving sub-step whose error is tolerated runs on a cached context, everywhere else its error is propagated (decided as C04.R8 for the IBC middleware and the claim handlers). R5 what a failed inbound bridge call had credited is taken back from the very account that was credited before the refund is queued (the credited == debited obligations of C04.R4). R6 no function writes in place into bytes read from a store: such a write bypasses Set and is not dropped with a cached context (imported from C09.R6). Not decided: failures inside the EVM at every gas limit (covered only via error propagation), the exact content of the designated outcome."
 	r.Rule("R1a", "sub-step effects go through the cached context", 3, "CacheContext sites with a used write-back")
 	r.Rule("R1b", "write-back guarded by err == nil of all sub-step calls", 3, "CacheContext sites with a used write-back")
 	r.Rule("R1c", "no effect on the cached context after the failure was detected", 3, "CacheContext sites with a used write-back")
@@ -277,6 +277,8 @@ func runC18(e *Engine, r *Report, tier string) {
 	// R3: an EVM call's response is inspected for failure before the sub-step is reported successful
 	r.Rule("R3", "EVM call: success is reported only after `!resp.Failed()`", 2, "calls returning *MsgEthereumTxResponse in consensus code")
 	r.Rule("R5", "the compensation of a tolerated failure debits the account that was credited (C04.R4: credited account == debited account)", 3, "C04 obligations")
+	r.Rule("R6", "bytes read from a store are never written in place: a write that bypasses Set is not dropped with the cached context of a failed sub-step (C09.R6)", 40, "KVStore / iterator read sites")
+	e.storeAliasRule(r, "R6")
 	r.Rule("R4", "a sub-step that moves value and fails either fails the whole step or ran on a cached context: its error is never swallowed on the live context (C04.R8 at the IBC middleware and claim handlers)", 2, "C04 obligations")
 	{
 		sub04 := NewReport("C04", "other")
